@@ -22,7 +22,17 @@ from vlib import bundle as vb
 PID = 'C19'
 LEVEL = 'exploration'
 BUDGET_S = {'quick': 40, 'thorough': 600}
-FLOORS = {'quick': {}, 'thorough': {}}
+FLOORS = {'quick': {'evaluations': 170000, 'histories': 160, 'nontrivial_histories': 160, 'quiescent_checks': 6800,
+                    'bundles_parsed': 13500, 'records_verified': 90000, 'api_reads': 110000, 'overwrites': 3500,
+                    'remove_live': 1500, 'bulk_within': 1100, 'bulk_across': 350, 'defrag_runs': 440,
+                    'defrag_bundles_rewritten': 300, 'defrag_bundle_shrank': 280, 'defrag_bundles_left_alone': 590,
+                    'defrag_addresses_compared': 11000, 'defrag_file_sizes_compared': 1300},
+          'thorough': {'evaluations': 3500000, 'histories': 2000, 'nontrivial_histories': 1900,
+                       'quiescent_checks': 220000, 'bundles_parsed': 460000, 'records_verified': 4000000,
+                       'api_reads': 2300000, 'overwrites': 138000, 'remove_live': 54000, 'bulk_within': 39000,
+                       'bulk_across': 12500, 'defrag_runs': 5400, 'defrag_bundles_rewritten': 4200,
+                       'defrag_bundle_shrank': 3900, 'defrag_bundles_left_alone': 7200,
+                       'defrag_addresses_compared': 138000, 'defrag_file_sizes_compared': 17000}}
 RULE = ("case = one history of 10-120 (quick) / 10-400 (thorough) operations on one CompactCacheV1 or V2 directory: "
         "store_tile (new address or overwrite), store_tiles within one bundle and across bundles, remove_tile (live "
         "or absent address), interleaved with 2-3 runs of the real defragmentation with a threshold setting from "
@@ -658,6 +668,8 @@ class Exec(object):
                 self.fail(dict(mech, clause='defrag_file_grew'),
                           "defrag(%s): %s grew from %d to %d bytes" % (_fmt_thr(d), rel, size, nsize))
         run.hit('defrag_bundles_rewritten', rewrote)
+        if d.get('cli'):
+            run.count('defrag_bundles_rewritten_via_cli', rewrote)
         nb = len([r for r in before_files if r.endswith('.bundle')])
         run.hit('defrag_bundles_left_alone', nb - rewrote)
         unmatched = [r for r in before_files if r.endswith('.bundle') and len(os.path.basename(r)) != len('R0000C0000.bundle')]
@@ -793,7 +805,7 @@ def gen_cases(run):
     for v in (1, 2):
         for i in range(len(directed())):
             yield {'kind': 'directed', 'version': v, 'i': i}
-    n = run.pick(150, 3000)
+    n = run.pick(200, 2500)
     for h in range(n):
         for v in (1, 2):
             yield {'kind': 'rand', 'version': v, 'hseed': h}
